@@ -14,6 +14,10 @@
 (***************************************************************************)
 EXTENDS DBTrace
 
+\* gct: the tables the collector may lock in its current pass (fixed when its lock-free scan ended);
+\* gcfresh: the scan may also have seen the publish that the next step event reports
+VARIABLES gct, gcfresh
+
 \* ---------------------------------------------------------------- probes
 TabEq(pt, ts) ==
     /\ pt.rev = ts.rev
@@ -102,20 +106,34 @@ SApply(e) ==
     \/ e.op = "wtxn"     /\ WriteTxnC(e.tx, e.tables)
     \/ e.op = "commit"   /\ CommitRetC(e.tx, e.snap)
     \/ e.op = "newtable" /\ NewTableC(e.t)
-    \/ e.op = "deadlock" /\ Stutter("deadlock")
+    \/ e.op \in {"deadlock", "gcscan"} /\ Stutter(e.op)
     \/ e.op = "iterclose" /\ IterCloseC(e.it)
-    \/ e.op \notin {"step", "wtxn", "commit", "newtable", "deadlock", "iterclose"} /\ Apply(e)
+    \/ e.op \notin {"step", "wtxn", "commit", "newtable", "deadlock", "iterclose", "gcscan"} /\ Apply(e)
 
 \* ------------------------------------------------------------ judgements
 RootGates == {"commit.rootlocked", "commit.stored", "register.locked", "register.stored"}
 Life(e) == Range(e.life)
 MyTables(e) == UNION { Range(r.tables) : r \in { q \in Life(e) : q.actor = e.actor } }
 
+\* tables the collector may legitimately lock: those holding a retained deletion that no open iterator needs
+GCTablesP ==
+    { t \in DOMAIN root' :
+        \E j \in 1..Len(root'[t].grave) :
+            /\ root'[t].grave[j].tracked
+            /\ ~\E i \in DOMAIN iter' : iter'[i].st = "open" /\ iter'[i].t = t /\ root'[t].grave[j].rev > iter'[i].mark }
+GCTables ==
+    { t \in DOMAIN root :
+        \E j \in 1..Len(root[t].grave) :
+            /\ root[t].grave[j].tracked
+            /\ ~\E i \in DOMAIN iter : iter[i].st = "open" /\ iter[i].t = t /\ root[t].grave[j].rev > iter[i].mark }
+GCNow == IF gcfresh THEN gct \cup GCTablesP ELSE gct
+TablesOfLife(r) == IF r.actor = "GC" THEN GCNow ELSE Range(r.tables)
+MyTablesP(e) == IF e.actor = "GC" THEN GCNow ELSE MyTables(e)
+
 BlockedBad(e) ==
     IF e.to # "blocked" THEN "ok"
     ELSE IF e.where = "table" THEN
-        IF \E r \in Life(e) : r.actor # e.actor /\ (Range(r.tables) \cap MyTables(e) # {} \/ (0 - 1) \in Range(r.tables)
-                                                    \/ e.actor = "GC")
+        IF \E r \in Life(e) : r.actor # e.actor /\ TablesOfLife(r) \cap MyTablesP(e) # {}
         THEN "ok" ELSE "C10_BlockedByDisjoint"
     ELSE IF e.where = "root" THEN
         IF \E r \in Life(e) : r.actor # e.actor /\ r.gate \in RootGates THEN "ok" ELSE "C10_RootLockHeld"
@@ -166,8 +184,12 @@ SStep ==
        /\ SApply(e)
        /\ viol' = IF viol.inv # "ok" THEN viol
                   ELSE LET b == SBad(e) IN IF b = "ok" THEN viol ELSE [l |-> l, inv |-> b, exp |-> ToString(res')]
+       /\ gct' = IF e.op = "gcscan" THEN GCTables ELSE IF e.op = "step" /\ gcfresh THEN gct \cup GCTablesP ELSE gct
+       /\ gcfresh' = IF e.op = "gcscan" THEN TRUE ELSE IF e.op = "step" THEN FALSE ELSE gcfresh
     /\ l' = l + 1 /\ tr' = tr /\ nops' = nops
 
-SNext == SStep \/ TDone
-SSpec == TInit /\ [][SNext]_tvars
+SDone == TDone /\ UNCHANGED << gct, gcfresh >>
+SInit == TInit /\ gct = {} /\ gcfresh = FALSE
+SNext == SStep \/ SDone
+SSpec == SInit /\ [][SNext]_<< tvars, gct, gcfresh >>
 =============================================================================
